@@ -518,3 +518,146 @@ pub fn c12_st(sink: &mut Sink, rng: &mut Rng, thorough: bool) {
     }
   }
 }
+
+/// C19, space-time variants of `moc op`: inter / union / minus on two ST-MOC FITS files, tfold (T-MOC x ST-MOC
+/// -> S-MOC) and sfold (S-MOC x ST-MOC -> T-MOC), driven through the REAL binary; the decoded output is compared,
+/// as a point set on the grid, with the model's point-wise semantics (`st_sem`, `st_tfold`, `st_sfold`).
+pub fn c19_st(sink: &mut Sink, rng: &mut Rng, thorough: bool, dir: &std::path::Path) {
+  for (dt, t0v) in PASSES {
+    set_pass(dt, t0v);
+    sink.count(&format!("st-pass:time-depth-{}-offset-{}", dt, if t0v == 0 { "0" } else { "top" }));
+    c19_st_pass(sink, rng, thorough, dir);
+  }
+  set_pass(2, 0);
+}
+
+fn nar(rs: &[Range<u64>], k: u32) -> Vec<Range<u64>> { rs.iter().map(|r| (r.start >> k)..(r.end >> k)).collect() }
+
+fn cli_panic_site(err: &str) -> String {
+  // "thread 'main' panicked at src/moc2d/range/op/or.rs:618:38:"
+  match err.find("panicked at ") {
+    Some(i) => {
+      let rest = &err[i + 12..];
+      let mut parts = rest.split(':');
+      let file = parts.next().unwrap_or("?");
+      let line = parts.next().unwrap_or("?");
+      let file = file.rsplit("/repo/").next().unwrap_or(file);
+      format!("panic@{}:{}", file, line)
+    }
+    None => "panic@?".to_string(),
+  }
+}
+
+fn c19_st_pass(sink: &mut Sink, rng: &mut Rng, thorough: bool, dir: &std::path::Path) {
+  use crate::c19::moc as run_moc;
+  use moc::deser::fits::{from_fits_ivoa, rangemoc2d_to_fits_ivoa, MocIdxType, MocQtyType, STMocType};
+  use moc::moc::{RangeMOCIntoIterator, RangeMOCIterator};
+  let n = if thorough { 120 } else { 10 };
+  let (gt, gs) = (grid_t(), grid_s());
+  let (tp, sp) = (nats(&gt), nats(&gs));
+  let read_st = |p: &std::path::Path| -> Result<(u8, u8, Vec<Elem>), String> {
+    let bytes = std::fs::read(p).map_err(|e| format!("unreadable: {}", e))?;
+    match from_fits_ivoa(std::io::Cursor::new(&bytes)) {
+      Ok(MocIdxType::U64(MocQtyType::TimeHpx(STMocType::V2(it)))) => {
+        let (d1, d2) = (it.depth_max_1(), it.depth_max_2());
+        Ok((d1, d2, from_moc2(it.into_range_moc2())))
+      }
+      Ok(_) => Err("wrong-kind".to_string()),
+      Err(e) => Err(format!("unreadable: {}", e)),
+    }
+  };
+  // 1-D result: (depth, ranges on 64 bits)
+  fn read_1d(p: &std::path::Path, time: bool) -> Result<(u8, Vec<Range<u64>>), String> {
+    let bytes = std::fs::read(p).map_err(|e| format!("unreadable: {}", e))?;
+    match crate::c07::read_fits(&bytes) {
+      Ok((q, w, d, rs)) => {
+        if q != (if time { "time" } else { "hpx" }) { return Err(format!("wrong-quantity {}", q)); }
+        let k = 64 - w;
+        Ok((d, rs.iter().map(|r| (r.start << k)..(r.end << k)).collect()))
+      }
+      Err(e) => Err(format!("unreadable: {}", e)),
+    }
+  }
+  for i in 0..n {
+    let a = random_st(rng);
+    let b = match i % 5 { 0 => a.clone(), 1 => vec![], 2 | 3 => related_st(rng, &a), _ => random_st(rng) };
+    let (pa, pb) = (dir.join("st_a.fits"), dir.join("st_b.fits"));
+    rangemoc2d_to_fits_ivoa(&to_moc2(&a), None, None, std::fs::File::create(&pa).unwrap()).unwrap();
+    rangemoc2d_to_fits_ivoa(&to_moc2(&b), None, None, std::fs::File::create(&pb).unwrap()).unwrap();
+    let (ta, tb) = (st_txt(&a), st_txt(&b));
+    for (tt, name) in [(14u32, "union"), (8, "inter"), (4, "minus")] {
+      let outp = dir.join("st_out.fits");
+      let _ = std::fs::remove_file(&outp);
+      let o = run_moc(&["op", name, pa.to_str().unwrap(), pb.to_str().unwrap(), "fits", outp.to_str().unwrap()], None);
+      sink.count(&format!("st-op:{}", name));
+      let line = format!("st_sem {} {} {} {} {}", tt, ta, tb, tp, sp);
+      let ans = if o.code == 0 {
+        match read_st(&outp) {
+          Ok((d1, d2, out)) => {
+            if !(a.is_empty() && b.is_empty()) && (d1 != DT_() || d2 != DS) {
+              sink.impl_failures.push(format!("cli-st-depths: moc op {} on ST-MOCs of depths ({}, {}) wrote depths ({}, {})", name, DT_(), DS, d1, d2));
+            }
+            bits_of(&out)
+          }
+          Err(e) => e,
+        }
+      } else if o.code == 101 {
+        cli_panic_site(&o.err)
+      } else {
+        format!("exit {} {}", o.code, o.err.lines().next().unwrap_or(""))
+      };
+      sink.emit(&line, &ans, !(a.is_empty() && b.is_empty()));
+    }
+    // tfold: T-MOC (any width that can hold the depth) x ST-MOC -> S-MOC
+    let tm = tranges_of_mask(rng.below(1 << NT));
+    let pt = dir.join("st_t.fits");
+    {
+      let w = if DT_() <= 13 { *rng.pick(&[16u32, 32, 64]) } else { 64 };
+      let f = std::fs::File::create(&pt).unwrap();
+      match w {
+        16 => { let m: RangeMOC<u16, Time<u16>> = mk_moc(DT_(), &nar(&tm, 48)); m.into_range_moc_iter().to_fits_ivoa(None, None, f).unwrap() }
+        32 => { let m: RangeMOC<u32, Time<u32>> = mk_moc(DT_(), &nar(&tm, 32)); m.into_range_moc_iter().to_fits_ivoa(None, None, f).unwrap() }
+        _ => { let m: RangeMOC<u64, Time<u64>> = mk_moc(DT_(), &tm); m.into_range_moc_iter().to_fits_ivoa(None, None, f).unwrap() }
+      }
+      sink.count(&format!("st-op:tfold:tmoc-u{}", w));
+    }
+    let outp = dir.join("st_fold.fits");
+    let _ = std::fs::remove_file(&outp);
+    let o = run_moc(&["op", "tfold", pt.to_str().unwrap(), pa.to_str().unwrap(), "fits", outp.to_str().unwrap()], None);
+    let ans = if o.code == 0 {
+      match read_1d(&outp, false) {
+        Ok((d, rs)) => {
+          if d != DS { sink.impl_failures.push(format!("cli-st-depths: tfold wrote an S-MOC of depth {} (ST space depth {})", d, DS)); }
+          gs.iter().map(|p| if mem(&rs, *p) { '1' } else { '0' }).collect()
+        }
+        Err(e) => e,
+      }
+    } else if o.code == 101 { cli_panic_site(&o.err) } else { format!("exit {} {}", o.code, o.err.lines().next().unwrap_or("")) };
+    sink.emit(&format!("st_tfold {} {} {}", fmt_ranges(&tm), ta, sp), &ans, !a.is_empty());
+    // sfold: S-MOC x ST-MOC -> T-MOC
+    let sm = ranges_of_mask(rng.below(1 << NS), NS as u32, sunit());
+    let ps = dir.join("st_s.fits");
+    {
+      let w = *rng.pick(&[16u32, 32, 64]);
+      let f = std::fs::File::create(&ps).unwrap();
+      match w {
+        16 => { let m: RangeMOC<u16, Hpx<u16>> = mk_moc(DS, &nar(&sm, 48)); m.into_range_moc_iter().to_fits_ivoa(None, None, f).unwrap() }
+        32 => { let m: RangeMOC<u32, Hpx<u32>> = mk_moc(DS, &nar(&sm, 32)); m.into_range_moc_iter().to_fits_ivoa(None, None, f).unwrap() }
+        _ => { let m: RangeMOC<u64, Hpx<u64>> = mk_moc(DS, &sm); m.into_range_moc_iter().to_fits_ivoa(None, None, f).unwrap() }
+      }
+      sink.count(&format!("st-op:sfold:smoc-u{}", w));
+    }
+    let _ = std::fs::remove_file(&outp);
+    let o = run_moc(&["op", "sfold", ps.to_str().unwrap(), pa.to_str().unwrap(), "fits", outp.to_str().unwrap()], None);
+    let ans = if o.code == 0 {
+      match read_1d(&outp, true) {
+        Ok((d, rs)) => {
+          if d != DT_() { sink.impl_failures.push(format!("cli-st-depths: sfold wrote a T-MOC of depth {} (ST time depth {})", d, DT_())); }
+          gt.iter().map(|p| if mem(&rs, *p) { '1' } else { '0' }).collect()
+        }
+        Err(e) => e,
+      }
+    } else if o.code == 101 { cli_panic_site(&o.err) } else { format!("exit {} {}", o.code, o.err.lines().next().unwrap_or("")) };
+    sink.emit(&format!("st_sfold {} {} {}", fmt_ranges(&sm), ta, tp), &ans, !a.is_empty());
+  }
+}
